@@ -1,5 +1,6 @@
 import Gbo.Props.C01
 import Gbo.Spec.Valid
+import Gbo.Proofs.QueueContent
 /-
   C07 — the result does not depend on how an operand is written down or wrapped.
   Proved outright, for every arithmetic and every input: wrapping (the four trait implementations) and
@@ -96,6 +97,33 @@ example :
     let sq : Poly := { ext := [⟨0,0⟩, ⟨2,0⟩, ⟨2,0⟩, ⟨2,0⟩, ⟨2,2⟩, ⟨0,2⟩, ⟨0,0⟩], holes := [] }
     let sq2 : Poly := { ext := [⟨1,1⟩, ⟨3,1⟩, ⟨3,3⟩, ⟨1,3⟩, ⟨1,1⟩], holes := [] }
     boxesDisjoint (fillQueue [sq] [sq2] .union).sbbox (fillQueue [sq] [sq2] .union).cbbox = false := by
+  decide +kernel
+
+/-- **Ring direction.**  Writing a ring in the opposite direction makes `process_polygon` queue exactly the
+    same segments (left endpoint, right endpoint, operand, contour id, exterior flag), as a multiset — for
+    every ring, degenerate lines and repeated vertices included.  Only the positions in the event arena
+    differ. -/
+theorem C07_queue_ring_reversed (subj : Bool) (cid : Nat) (ext : Bool) (ring : Ring) (st : FQ × Option BBox)
+    (h : st.1.arena.size % 2 = 0) :
+    (arenaSegs (processRing subj cid ext st ring.reverse).1.arena).Perm
+      (arenaSegs (processRing subj cid ext st ring).1.arena) :=
+  processRing_reverse_perm subj cid ext ring st h
+
+/-- **Ring start.**  Starting a closed ring one vertex later queues the same segments (by induction: at any
+    other vertex). -/
+theorem C07_queue_ring_rotated (subj : Bool) (cid : Nat) (ext : Bool) (p m : Pt) (mid : List Pt) (st : FQ × Option BBox)
+    (h : st.1.arena.size % 2 = 0) :
+    (arenaSegs (processRing subj cid ext st (m :: mid ++ [p] ++ [m])).1.arena).Perm
+      (arenaSegs (processRing subj cid ext st (p :: m :: mid ++ [p])).1.arena) :=
+  processRing_rotate_perm subj cid ext p m mid st h
+
+/-- non-vacuity: a triangle written clockwise from (0,0) and counter-clockwise from (2,0) -/
+example :
+    let r1 : Ring := [⟨0, 0⟩, ⟨0, 2⟩, ⟨2, 0⟩, ⟨0, 0⟩]
+    let r2 : Ring := [⟨2, 0⟩, ⟨0, 2⟩, ⟨0, 0⟩, ⟨2, 0⟩]
+    (arenaSegs (processRing true 1 true ({}, none) r1).1.arena).length = 3 ∧
+    ∀ s ∈ arenaSegs (processRing true 1 true ({}, none) r1).1.arena,
+      s ∈ arenaSegs (processRing true 1 true ({}, none) r2).1.arena := by
   decide +kernel
 
 end Gbo.Props
